@@ -358,5 +358,45 @@ impl DbHandle {
             }
 //@ end
 
+
+// ---------------------------------------------------------------- member scan, element side: what `next` makes of a stored key
+/// interface stand-in for the self-referencing RocksDB iterator wrapper (ouroboros): it yields the stored keys of the scan
+/// window, one by one. ASSUMPTION (write paths above): every key stored in a key-of-set column family is a member_key image
+/// `lp(kb) ++ eb` with kb shorter than 2^56 bytes.
+#[verifier::external_body]
+pub struct OwnedScannedMembersIterator { _p: u8 }
+impl OwnedScannedMembersIterator {
+    /// the stored key the iterator is positioned at (None: window exhausted)
+    pub uninterp spec fn at(&self) -> Option<Seq<u8>>;
+    #[verifier::external_body]
+    pub fn next(&mut self) -> (r: Option<Result<(Box<[u8]>, Box<[u8]>), std::fmt::Error>>)
+        ensures
+            old(self).at() is None ==> r is None,
+            old(self).at() matches Some(k) ==> (r matches Some(Ok(kv)) && kv.0@ == k
+                && exists|kb: Seq<u8>, eb: Seq<u8>| #![trigger lp(kb) + eb] k == lp(kb) + eb && kb.len() < 0x100_0000_0000_0000 && 8 + kb.len() + eb.len() <= usize::MAX),
+    { unimplemented!() }
+}
+//@ struct crates/storage/src/kv_database/rocksdb.rs :: ScanMembersIterator
+//@ impl crates/storage/src/kv_database/rocksdb.rs :: impl<C: KeyOfSetColumn> Iterator for ScanMembersIterator<C>
+//@ header-sub Iterator for ScanMembersIterator<C> => ScanMembersIterator<C>
+//@ member next
+//@ text-sub Option<Self::Item> => Option<C::Element>
+//@ ret r
+//@ sig
+        ensures
+            old(self).inner.at() is None ==> r is None,
+            // the element is decoded from exactly the element part of the stored key lp(kb) ++ eb
+            old(self).inner.at() matches Some(k) ==> (r matches Some(e)
+                && forall|kb: Seq<u8>, e0: C::Element| #![trigger lp(kb) + e0.bytes()] k == lp(kb) + e0.bytes() && kb.len() < 0x100_0000_0000_0000 ==> e.bytes() == e0.bytes()),
+//@ head
+        proof {
+            axiom_try_from_slice8();
+            assert forall|kb: Seq<u8>, eb: Seq<u8>| #![trigger lp(kb) + eb] kb.len() < 0x100_0000_0000_0000 implies ({
+                let s = lp(kb) + eb;
+                s.subrange(0, 8) =~= le64(kb.len()) && le64_val(s.subrange(0, 8)) == kb.len() && s.subrange(8 + kb.len() as int, s.len() as int) =~= eb && s.len() == 8 + kb.len() + eb.len()
+            }) by { lemma_le64_roundtrip(kb.len()); lemma_member_split(kb, eb); }
+        }
+//@ end
+
 } // verus!
 fn main() {}
